@@ -5,7 +5,9 @@ import (
 	"sort"
 	"strings"
 
+	"github.com/buildbuildio/pebbles/common"
 	"github.com/buildbuildio/pebbles/merger"
+	"github.com/buildbuildio/pebbles/planner"
 	"github.com/vektah/gqlparser/v2"
 	"github.com/vektah/gqlparser/v2/ast"
 
@@ -37,7 +39,63 @@ type mergeObs struct {
 	Inputs  [][]coqprint.CanonDef
 	Result  *merger.MergeResult
 	InSch   []*ast.Schema
+	Routes  []routeObs // PlanningContext.GetURL over the table (C04 only)
+	RouteOp string     // "" or the first (type, field, from) whose route depends on the kind of the running operation
 }
+
+// routeObs is one reading of the routing table the way the planner reads it.
+type routeObs struct {
+	Type, Field, From string
+	Result            string // "url:<u>" | "notype" | "nofield" | "other:<msg>"
+}
+
+// observeRoutes asks the real PlanningContext.GetURL for every (type, field) of the table — plus a builtin
+// field and a type the table does not know — from every parent service and from the internal pseudo-service,
+// under each kind of running operation.
+func observeRoutes(c mergeCase, o *mergeObs) {
+	froms := append(append([]string{}, c.URLs...), common.InternalServiceName)
+	kinds := []ast.Operation{ast.Query, ast.Mutation, ast.Subscription}
+	ask := func(k ast.Operation, t, f, from string) (res string) {
+		defer func() {
+			if r := recover(); r != nil {
+				res = fmt.Sprint("other:panic: ", r)
+			}
+		}()
+		pc := &planner.PlanningContext{Operation: &ast.OperationDefinition{Operation: k}, TypeURLMap: o.Result.TypeURLMap, Schema: o.Result.Schema}
+		u, err := pc.GetURL(t, f, from)
+		switch {
+		case err == nil:
+			return "url:" + u
+		case strings.HasPrefix(err.Error(), "could not find location type"):
+			return "notype"
+		case strings.HasPrefix(err.Error(), "could not find location for field"):
+			return "nofield"
+		}
+		return "other:" + err.Error()
+	}
+	one := func(t, f string) {
+		for _, from := range froms {
+			r0 := ask(kinds[0], t, f, from)
+			for _, k := range kinds[1:] {
+				if r := ask(k, t, f, from); r != r0 && o.RouteOp == "" {
+					o.RouteOp = fmt.Sprintf("%s.%s asked from %q is routed to %s while a query runs and to %s while a %s runs", t, f, from, r0, r, k)
+				}
+			}
+			o.Routes = append(o.Routes, routeObs{t, f, from, r0})
+		}
+	}
+	for i, e := range o.TM {
+		for _, f := range e.Fields {
+			one(e.Type, f[0])
+		}
+		if i < 2 || e.Type == "Query" || e.Type == "Mutation" {
+			one(e.Type, "__typename")
+			one(e.Type, "no_such_field")
+		}
+	}
+	one("NoSuchType", "x")
+}
+
 
 func classifyMergeErr(msg string) string {
 	switch {
@@ -153,7 +211,22 @@ func mergeCoqCase(c mergeCase, o mergeObs) string {
 	default:
 		obs = "OOther"
 	}
-	return fmt.Sprintf("mkCase %s\n    [%s]\n    %s", hx.CoqBool(c.Hide), strings.Join(ins, ";\n     "), obs)
+	rs := make([]string, len(o.Routes))
+	for i, r := range o.Routes {
+		var x string
+		switch {
+		case strings.HasPrefix(r.Result, "url:"):
+			x = "ORUrl " + hx.CoqString(strings.TrimPrefix(r.Result, "url:"))
+		case r.Result == "notype":
+			x = "ORNoType"
+		case r.Result == "nofield":
+			x = "ORNoField"
+		default:
+			x = "OROther"
+		}
+		rs[i] = fmt.Sprintf("(%s, %s, %s, %s)", hx.CoqString(r.Type), hx.CoqString(r.Field), hx.CoqString(r.From), x)
+	}
+	return fmt.Sprintf("mkCase %s\n    [%s]\n    %s\n    %s", hx.CoqBool(c.Hide), strings.Join(ins, ";\n     "), obs, hx.CoqList(rs))
 }
 
 func setToCase(ss []*gen.Service, hide bool, origin string) mergeCase {
